@@ -14,6 +14,7 @@ for id in $IDS; do
   done
   deg=$(cat "$S"/out.* | grep -c '^DEGRADED')
   echo "$id:${out:- all 0}  (degraded-to-bounded lines: $deg)"
+  [ -n "$REF_DEG" ] && cat "$S"/out.* | grep '^DEGRADED' | sed 's/^DEGRADED unit=\([^:]*\): its contract does not apply to the code as it is now (\(.\{0,110\}\).*/      degraded: \1 <- \2/' | sort -u | head -12
   for f in "$S"/why.*; do [ -f "$f" ] && { echo "   [$(basename $f | sed 's/why.//')]"; sed 's/^/      /' "$f"; }; done 2>/dev/null | head -${REF_LINES:-14}
   rm -rf "$S"
 done
